@@ -176,6 +176,9 @@ func genWrapIP(c *lib.Ctx) {
 	c.Comment("MeasureClockOffsetIP wrapper")
 	for i := 0; i < n; i++ {
 		il := r.Chance(80)
+		if i < 6 {
+			il = true
+		}
 		ipc := &client.IPClient{Log: logger, InterleavedMode: il}
 		// per attempt: 0 garbage x2 (error unexpected... size), 1 basic reply, 2 interleaved-if-possible, 3 silence
 		var plan [3]int
@@ -184,6 +187,11 @@ func genWrapIP(c *lib.Ctx) {
 			if r.Chance(50) {
 				plan[k] = 1 + r.Intn(2)
 			}
+		}
+		// fixed plans first: a completed first exchange followed by lost / failed later attempts
+		// (the result of the completed exchange must survive), failures before a success
+		if i < 6 {
+			plan = [][3]int{{1, 3, 0}, {1, 0, 3}, {1, 1, 3}, {0, 1, 3}, {1, 2, 0}, {0, 0, 1}}[i]
 		}
 		ctx, cancel := context.WithTimeout(context.Background(), 80*time.Millisecond)
 		clk.reset()
@@ -270,6 +278,20 @@ func genWrapIP(c *lib.Ctx) {
 			// direct oracle: success only if some attempt was answered genuinely
 			if !strings.Contains(op, "ok:") {
 				c.Fail("C05:wrapper-success-without-accept", "MeasureClockOffsetIP succeeded although no attempt accepted a response", []string{op}, nil)
+			}
+			// direct oracle (C05_wrapper_ip_sound on the real code): a nil error comes with the
+			// (timestamp, offset) of a successful attempt of this call: the offset is within 1 s of
+			// the offset one of the answered attempts was stamped with (they are 1000 s apart) and
+			// the timestamp is a receive time inside this call
+			fromOK := strings.Contains(op, fmt.Sprintf("ok:%d:", which))
+			dev := int64(r0.off) - which*1000*nsps
+			if dev < 0 {
+				dev = -dev
+			}
+			if !fromOK || dev > nsps || r0.ts.Before(start.Add(-time.Second)) || r0.ts.After(time.Now().Add(time.Second)) {
+				c.Fail("C05:wrapper-result-not-from-successful-attempt",
+					"MeasureClockOffsetIP returned a nil error with a (timestamp, offset) that is not the result of any successful attempt of the call",
+					[]string{op}, map[string]any{"offset": int64(r0.off), "ts_zero": r0.ts.IsZero(), "ts": r0.ts.UnixNano()})
 			}
 		}
 		c.Emit(op, ans)
